@@ -28,6 +28,41 @@ pub fn exec(it: &mut Interp, toks: &[&str], out: &mut Vec<String>) -> bool {
             }
             true
         }
+        ["enrichbig", big_n, big_k, n, k] => {
+            // a flat ontology of N terms (ids 1..=N), gene 1 on the terms 1..=K, the sample = k of
+            // those and n-k of the others; the whole ontology is the background
+            let (Ok(big_n), Ok(big_k), Ok(n), Ok(k)) = (big_n.parse::<u32>(), big_k.parse::<u32>(), n.parse::<u32>(), k.parse::<u32>())
+            else {
+                return false;
+            };
+            if k == 0 || k > big_k || k > n || big_k + (n - k) > big_n || big_n > 9_999_999 {
+                return false;
+            }
+            let mut b = hpo::builder::Builder::new();
+            for id in 1..=big_n {
+                b.new_term("t", id);
+            }
+            let mut b = b.terms_complete().connect_all_terms();
+            for id in 1..=big_k {
+                if b.annotate_gene(hpo::annotations::GeneId::from(1u32), "G", hpo::HpoTermId::from(id)).is_err() {
+                    out.push("oracle FAIL enrichbig: annotate failed".to_string());
+                    return true;
+                }
+            }
+            let Ok(b) = b.calculate_information_content() else {
+                out.push("oracle FAIL enrichbig: ic failed".to_string());
+                return true;
+            };
+            let o = b.build_minimal();
+            let smp: Vec<u32> = (1..=k).chain(big_k + 1..=big_k + (n - k)).collect();
+            let sample = HpoSet::new(&o, HpoGroup::from(smp));
+            let recs = gene_enrichment(&o, &sample);
+            out.push(format!("ENR N={} n={} records={}", o.len(), sample.len(), recs.len()));
+            for e in &recs {
+                out.push(format!("E {} {} {} {}", e.id().as_u32(), e.count(), f64bits(e.pvalue()), f64bits(e.enrichment())));
+            }
+            true
+        }
         ["link", m, slot, ids, table] => {
             let (Ok(slot), Some(ids), Some(table)) = (slot.parse::<u32>(), unids(ids), unids(table)) else { return false };
             if !["union", "single", "complete", "average"].contains(m) {
